@@ -15,6 +15,7 @@ class PDAObjectCreator:
             self._inverse_stack_symbol[terminal] = None
         for variable in variables:
             self._inverse_stack_symbol[variable] = None
+        self._taken_stack_values = {str(x.value) for x in variables}
 
     def get_symbol_from(self, symbol):
         """Get a symbol"""
@@ -35,6 +36,11 @@ class PDAObjectCreator:
             value = str(stack_symbol.value)
             if isinstance(stack_symbol, cfg.Terminal):
                 value = "#TERM#" + value
+                # The stack symbol of a terminal must differ from the ones
+                # of the variables
+                while value in self._taken_stack_values:
+                    value = "#TERM#" + value
+                self._taken_stack_values.add(value)
             temp = pda.StackSymbol(value)
             self._inverse_stack_symbol[stack_symbol] = temp
             return temp
